@@ -90,13 +90,21 @@ func (o *OracleC04) AfterBlock(c *Chain, b *BlockCtx) []*Violation {
 			class = "dispute-escrow-short:backer-moved-stake-since-report"
 		}
 		out = append(out, o.v(b.H, "dispute-account", class, "dispute account holds %s but owes at least %s (%s)", bal, liab, detail))
+		if i := strings.IndexByte(class, ':'); i > 0 {
+			if c.Facts == nil {
+				c.Facts = map[string]string{}
+			}
+			c.Facts["dispute-escrow-short"] = class[i+1:] // claims failing for funds later in this run are its consequences
+		}
 	}
 	if liab.Sign() > 0 {
 		o.count("dispute_liability_checks_nonzero")
 	}
 
 	// entitlement probes (side-effect free, on a cache context)
-	if len(out) == 0 && (b.H%5 == 0 || len(b.Txs) > 1) {
+	if c.Facts["dispute-escrow-short"] != "" {
+		o.count("probes_skipped_after_known_escrow_shortfall")
+	} else if len(out) == 0 && (b.H%5 == 0 || len(b.Txs) > 1) {
 		out = append(out, o.probes(c, b, v)...)
 	}
 	return out
